@@ -99,7 +99,11 @@ theorem handle_syns (d : Disp) (ev : Event) :
       · split
         · rfl
         · unfold setSlots; split <;> rfl
-    | shutdown k => rfl
+    | shutdown k o =>
+      simp only [handle, onControl]
+      split
+      · rfl
+      · split <;> rfl
   | datagram addr bytes =>
     simp only [handle]
     split
